@@ -317,7 +317,7 @@ fn packets_c05(o: &mut Out, r: &mut Rng, th: bool) {
     }
     // B: payload lengths 0..max x five compressibility classes, with and without token
     for n in lengths(th, 1400) {
-        for class in 0..5 {
+        for class in 0..6 {
             let d = payload_of_class(r, class, n);
             for tok in [None, Some(parse4(&r.bytes(4)))] {
                 let p = Pkt6::Connected { ack: ack_pick(r), tok, ty: Ty6::Chunks(r.chance(1, 2), r.byte(), d.clone()) };
@@ -325,7 +325,7 @@ fn packets_c05(o: &mut Out, r: &mut Rng, th: bool) {
             }
             let p = Pkt7::Connected { ack: ack_pick(r), tok: parse4(&r.bytes(4)), ty: Ty7::Chunks(r.chance(1, 2), r.byte(), d.clone()) };
             roundtrip7(o, &p, 2048);
-            if class == 0 || class == 4 {
+            if class == 0 || class == 4 || class == 5 {
                 roundtrip6(o, &Pkt6::Connless(d.clone()), 2048);
                 roundtrip7(o, &Pkt7::Connless { payload: d.clone(), tok: parse4(&r.bytes(4)), rtok: parse4(&r.bytes(4)) }, 2048);
             }
